@@ -1,13 +1,64 @@
 """C18 — Build events and target output follow a well-formed protocol."""
+import json
+import os
+
 from checks.engine_common import run_engine, run_linewriter, run_renderers
+from lib.vlib import HARNESS
 
 META = {
     "property_id": "C18",
     "technique": "Coq proof over a Gallina model of the build engine + history correspondence with fresh-process builds",
-    "level_text": "Theorems: per_label_shape (every build, every mode), evaluating_iff_body_runs, lines_chunking_invariant, flush_leaves_empty, second_run_repeats_nothing (lineWriter), run_done_once_last (the complete stream of a build ends with exactly one run-done carrying the requested target's result), output_inside_window (per label the stream is nothing / up-to-date / lone failed / evaluating, then iff the body ran exactly the lines of what it wrote whatever the chunking, then one completion). Correspondence: per-label event sequences of every build vs the model; real lineWriter vs model on random chunkings, two rounds per writer; the four CLI renderers (line, status, JSON, DOT) driven by the event streams of ten real build scenarios (no panic, well-formed JSON stream). Oracles on the implementation: run-done once/last with Run's error, prints inside the evaluating window, evaluating iff body ran, lone failed event for missing dependencies, output of succeeding AND failing bodies (incl. an unterminated last line) delivered exactly once before the completion event.",
-    "level_note": "Trusted: as C01; the stream model (Build/Stream.v) composes the engine model's events with the line-writer model and is tied to the code by the protocol oracles (not by a term-by-term comparison of print events); interleavings of parallel targets are sampled by the real runner.",
+    "level_text": "Theorems: per_label_shape (every build, every mode), evaluating_iff_body_runs, lines_chunking_invariant, flush_leaves_empty, second_run_repeats_nothing (lineWriter), run_done_once_last (the complete stream of a build ends with exactly one run-done carrying the requested target's result), output_inside_window (per label the stream is nothing / up-to-date / lone failed / evaluating, then iff the body ran exactly the lines of what it wrote whatever the chunking, then one completion); Output/Props_C18.v: one_channel_each_stream_in_order (producers of whole-line blocks -- a process's standard output and standard error -- through ONE channel and one copier: any interleaving, any chunking, every line once and intact, each stream in its own order), separate_copiers_refuted (a copier per stream into the one line writer tears lines), writer_per_copier_delivers_its_stream. Correspondence: per-label event sequences of every build vs the model; real lineWriter vs model on random chunkings, two rounds per writer; the four CLI renderers (line, status, JSON, DOT) driven by the event streams of ten real build scenarios (no panic, well-formed JSON stream). Oracles on the implementation: run-done once/last with Run's error, prints inside the evaluating window, evaluating iff body ran, lone failed event for missing dependencies, output of succeeding AND failing bodies (incl. an unterminated last line) delivered exactly once before the completion event; output of real processes started by os.exec / sh.exec / os.output / sh.output that write thousands of numbered lines to one stream, to both in turn, or to both at the same time (atomic whole-line blocks), with fast and slow consumers, several processes per body, failing processes, parallel targets, two processes of one shell command: every delivered line is the next line of its stream, every stream complete, inside the window.",
+    "level_note": "Trusted: as C01; the stream model (Build/Stream.v) composes the engine model's events with the line-writer model and is tied to the code by the protocol oracles (not by a term-by-term comparison of print events); interleavings of parallel targets and of a process's two streams are sampled by the real runner / real processes (the model quantifies over all of them; os/exec's one-pipe-per-distinct-writer behaviour is the Go standard library's and is observed, not modelled).",
     "design_ref": "DESIGN.md §6 C18",
 }
+
+
+def run_procout(ctx):
+    """C18: output of real processes (both standard streams, at the same time) through the target's writer."""
+    ok, _rep = ctx.coq_props("Output/Props_C18.v")
+    if not ok and not ctx.violations:
+        ctx.violation("a C18 theorem (Output/Props_C18.v) no longer checks", {"theorem_or_correspondence": getattr(ctx, "broken_proof", {})},
+                      found_input=False)
+    out = os.path.join(ctx.tmp, "procout.tsv")
+    src = os.path.join(HARNESS, "overlay/root/zz_verif_c18_procout_test.go")
+    rc, o = ctx.go_overlay_test("", {"zz_verif_c18_procout_test.go": src}, "^TestVerifC18Procout$",
+                                {"VERIF_OUT": out, "VERIF_SEED": str(ctx.seed), "VERIF_TIER": ctx.tier}, timeout=900)
+    if rc != 0 or not os.path.exists(out):
+        ctx.violation("process-output harness failed (exit %d)" % rc, {"theorem_or_correspondence": "C18 process-output harness", "output": o[-2000:]},
+                      found_input=False)
+        return
+    cases, by_scen = [], {}
+    for line in open(out):
+        f = line.rstrip("\n").split("\t")
+        if f[0] == "ORACLE":
+            by_scen.setdefault((f[1], f[3]), []).append(f[2])
+        elif f[0] == "case":
+            cases.append((f[1], int(f[2]), json.loads(f[3]) if f[3] != "null" else {}))
+    how = "harness/overlay/root/zz_verif_c18_procout_test.go, VERIF_SEED=%d VERIF_TIER=%s (VERIF_C18_ONLY=<scenario name> plays one); TOOL = the test binary itself: `TOOL verif-c18-tool tag:mode:n_out:n_err:block_bytes:cut_bytes:tail:fail`" % (ctx.seed, ctx.tier)
+    reported = {"process": 0, "shell": 0}
+    for (cls, scen), texts in by_scen.items():
+        if reported[cls] >= 3:
+            continue
+        reported[cls] += 1
+        # the processes of ONE shell command (pipeline, background job) each get a copier of their own from the shell
+        # interpreter: a separate class, so that it can be told apart from what os.exec / a single command do
+        key = "shell-concurrent-writers" if cls == "shell" else None
+        ctx.violation("implementation violates %s" % texts[0], {"oracle": texts[:6], "scenario": json.loads(scen), "how": how}, key=key)
+    lines = sum(c[2].get("lines", 0) for c in cases)
+    ctx.coverage["correspondence"]["process_output"] = {
+        "scenarios": len(cases), "streams": sum(c[2].get("streams", 0) for c in cases), "lines_expected": lines,
+        "bad_lines": sum(c[2].get("bad_lines", 0) for c in cases),
+        "switches_between_streams_in_delivered_output": sum(c[2].get("stream_switches", 0) for c in cases),
+        "scenario_names_ms": {c[0]: c[1] for c in cases},
+        "rule": "builtin {os.exec, sh.exec} x streams {out, err, both in turn, both at the same time} x consumer {fast, slow}; os.output / sh.output "
+                "(captured standard output, standard error delivered); raw pieces of 1 / 7 / 4096 / 65536 / 2^20 bytes with an unterminated "
+                "last line and failing processes; three processes in one body; four chatty targets in parallel; two processes of one shell "
+                "command (pipeline, background job); volumes and block sizes drawn from the seed; one process per scenario",
+    }
+    ctx.coverage["evaluations"] += len(cases)
+    ctx.log("process output: scenarios=%d streams=%d lines=%d scenarios-with-oracle-failures=%d" % (
+        len(cases), ctx.coverage["correspondence"]["process_output"]["streams"], lines, len(by_scen)))
 
 
 def run(ctx):
@@ -17,3 +68,4 @@ def run(ctx):
                "Oracle: per-label event shape, run-done once and last with Run's error, output lines delivered once, in order, inside the evaluating window, evaluating iff the body runs.")
     run_linewriter(ctx)
     run_renderers(ctx)
+    run_procout(ctx)
